@@ -88,6 +88,10 @@ func detObserveWith(compile func() (*template.Registry, error), dataByTmpl map[s
 			if nn, ok := n.(*ast.NamespaceNode); ok {
 				ns = nn.Name
 			}
+			// several files may also share a namespace: the first template's name tells them apart
+			if tn, ok := n.(*ast.TemplateNode); ok && !strings.Contains(ns, "#") {
+				ns += "#" + tn.Name
+			}
 		}
 		for _, fm := range []string{"es5", "es6"} {
 			for mi, b := range []*jsMemBundle{nil, mb} {
@@ -296,6 +300,7 @@ func init() {
 func genC13det(g *G) {
 	n := g.N(500, 8000)
 	bg := newJsBundleGen(g.R)
+	bg.opts.sharedNs = true // two files may share a namespace, each tag with its own autoescape attribute
 	type job struct {
 		fs      []srcFile
 		globals data.Map
